@@ -1061,3 +1061,168 @@ def gen_composite_module(rng, nfuncs, hist=None):
         srcs.append(src)
         calls[name] = tuples
     return HEADER + "\n\n".join(srcs), calls
+
+
+# ---------------------------------------------------------------------------
+# match statements with capture patterns over statically shaped subjects; the captured names are read
+# afterwards so that the recorder sees them.  (Seeded change round 3: visit_MatchSequence computed
+# post_starred_length one too large: the star capture lost its last element and every sub-pattern
+# after the star was bound one position too early.)
+
+_MATCH_SUBJECTS = [
+    # (parameters [(name, annotation, samples)], setup lines, subject expression, shape)
+    ([("t", "tuple[int, int, int]", ["(1, 2, 3)", "(0, 0, 0)", "(7, 8, 9)"])], [], "t", ("seq", 3)),
+    ([("t", "tuple[int, str, float, None]", ["(1, 'a', 1.5, None)", "(0, '', 0.0, None)"])], [], "t", ("seq", 4)),
+    ([("t", "tuple[str, int]", ["('x', 10)", "('', 0)"])], [], "t", ("seq", 2)),
+    ([], ["t = (1, 2, 3, 4)"], "t", ("seq", 4)),
+    ([], ["t = ('x', 10)"], "t", ("seq", 2)),
+    ([("p", "int", ["1", "5"]), ("q", "str", ["'a'", "''"])], ["t = (p, 2, q, None, 3.5)"], "t", ("seq", 5)),
+    ([("p", "int", ["1", "5"])], ["t = [1, 'two', 3.0, p]"], "t", ("seq", 4)),
+    ([("p", "int", ["1", "5"])], [], "(p, 'k', p)", ("seq", 3)),
+    ([("t", "tuple[tuple[int, str], tuple[int, str, None]]", ["((1, 'a'), (2, 'b', None))"])], [], "t", ("seq2", 2)),
+    ([("x", "Inner", _INNERS)], [], "x", ("cls", "Inner", ["v", "w"])),
+    ([("x", "Outer", _OUTERS)], [], "x", ("cls", "Outer", ["a", "b", "n", "items"])),
+    ([("p", "int", ["1", "0"])], ["x = Inner(p, 'w')"], "x", ("cls", "Inner", ["v", "w"])),
+    ([("p", "int", ["1", "0"])], ["d = {'a': p, 'b': 'x', 'c': None}"], "d", ("map", ["a", "b", "c"])),
+    ([("d", "dict[str, int]", ["{'a': 1, 'b': 2}", "{'a': 0}", "{}"])], [], "d", ("map", ["a", "b"])),
+]
+
+
+def _seq_pattern(rng, n, names, allow_nested=False):
+    """a sequence pattern for a subject of static length n; returns (source, captured names)"""
+    star = rng.choice(["none", "head", "middle", "tail", "middle", "tail", "head"])
+    # number of non-star sub-patterns: at most n (n itself: the star matches nothing), usually fewer
+    k = n if star == "none" else rng.randrange(0, n + 1)
+    if star == "middle" and k < 2:
+        star = "tail" if k else "head"
+    subs = []
+    caps = []
+
+    def sub():
+        r = rng.random()
+        if r < 0.65:
+            c = names.pop(0)
+            caps.append(c)
+            return c
+        if r < 0.75:
+            return "_"
+        if r < 0.9:
+            c = names.pop(0)
+            caps.append(c)
+            return f"{rng.choice(['int()', 'str()', 'int() | str()', 'object()'])} as {c}"
+        return rng.choice(["1", "'a'", "None", "0 | 1 | 2"])
+
+    for _ in range(k):
+        subs.append(sub())
+    if star != "none":
+        sc = names.pop(0)
+        caps.append(sc)
+        starred = "*" + (sc if rng.random() < 0.85 else "_")
+        if starred == "*_":
+            caps.remove(sc)
+        pos = 0 if star == "head" else len(subs) if star == "tail" else rng.randrange(1, len(subs))
+        subs.insert(pos, starred)
+    br = rng.choice(["[]", "()"])
+    inner = ", ".join(subs) + ("," if len(subs) == 1 and br == "()" else "")
+    return br[0] + inner + br[1], caps
+
+
+def gen_match_function(rng, name, hist=None):
+    params, setup, subj, shape = rng.choice(_MATCH_SUBJECTS)
+    ind = "    "
+    lines = [f"def {name}({', '.join(f'{n}: {a}' for n, a, _ in params)}):"] + [ind + s for s in setup]
+    lines.append(f"{ind}match {subj}:")
+    ncase = rng.randrange(1, 4)
+    counter = [0]
+
+    def fresh_names():
+        out = []
+        for _ in range(24):
+            counter[0] += 1
+            out.append(f"c{counter[0]}")
+        return out
+
+    for ci in range(ncase):
+        names = fresh_names()
+        kind = shape[0]
+        if kind == "seq":
+            pat, caps = _seq_pattern(rng, shape[1], names)
+            r = rng.random()
+            if r < 0.15:
+                c = names.pop(0)
+                pat, caps = f"{pat} as {c}", caps + [c]
+            elif r < 0.3 and caps:
+                # an or-pattern binding the same names on both sides
+                pat = f"{pat} | {pat}"
+        elif kind == "seq2":
+            p1, c1 = _seq_pattern(rng, 2, names)
+            p2, c2 = _seq_pattern(rng, 3, names)
+            pat, caps = f"[{p1}, {p2}]", c1 + c2
+        elif kind == "cls":
+            cls, fields = shape[1], shape[2]
+            caps = []
+            if rng.random() < 0.4 and cls == "Inner":
+                a, b = names.pop(0), names.pop(0)
+                caps = [a, b]
+                pat = f"Inner({a}, {b})"
+            else:
+                parts = []
+                for f in rng.sample(fields, rng.randrange(1, len(fields) + 1)):
+                    c = names.pop(0)
+                    if f == "items":
+                        sp, sc = _seq_pattern(rng, 3, names)
+                        parts.append(f"items={sp}")
+                        caps += sc
+                    elif f in ("a", "b") and rng.random() < 0.5:
+                        c2 = names.pop(0)
+                        parts.append(f"{f}=Inner(v={c}, w={c2})")
+                        caps += [c, c2]
+                    else:
+                        parts.append(f"{f}={c}")
+                        caps.append(c)
+                pat = f"{cls}({', '.join(parts)})"
+        else:
+            keys = shape[1]
+            caps = []
+            parts = []
+            for key in rng.sample(keys, rng.randrange(1, len(keys) + 1)):
+                c = names.pop(0)
+                caps.append(c)
+                parts.append(f"'{key}': {c}" if rng.random() < 0.7 else f"'{key}': int() as {c}")
+            if rng.random() < 0.6:
+                c = names.pop(0)
+                caps.append(c)
+                parts.append(f"**{c}")
+            pat = "{" + ", ".join(parts) + "}"
+        lines.append(f"{ind * 2}case {pat}:")
+        if caps:
+            lines.append(f"{ind * 3}o{ci} = ({', '.join(caps)},)")
+            lines.append(f"{ind * 3}return ({', '.join(reversed(caps))},)")
+        else:
+            lines.append(f"{ind * 3}return {subj}")
+        if hist is not None:
+            hist["matchcap:" + kind] = hist.get("matchcap:" + kind, 0) + 1
+    lines.append(f"{ind}return None")
+    samples = [ss for _, _, ss in params]
+    if samples:
+        n = max(len(s) for s in samples)
+        tuples = ["(" + ", ".join(s[(j + k) % len(s)] for k, s in enumerate(samples)) + ",)" for j in range(n + 1)]
+    else:
+        tuples = ["()"]
+    return "\n".join(lines) + "\n", list(dict.fromkeys(tuples))
+
+
+def gen_match_module(rng, nfuncs, hist=None):
+    srcs, calls = [], {}
+    i = 0
+    while len(srcs) < nfuncs:
+        name = f"k{i}"
+        i += 1
+        src, tuples = gen_match_function(rng, name, hist)
+        try:
+            compile(src, "<gen>", "exec")
+        except SyntaxError:
+            continue   # e.g. an irrefutable or-alternative / two stars: regenerate
+        srcs.append(src)
+        calls[name] = tuples
+    return HEADER + "\n\n".join(srcs), calls
